@@ -7,6 +7,7 @@ import vlib
 CODES = {1: "verdict (authorized vs not) differs", 2: "returned authorization path differs",
          3: "sequence of signature verifications differs", 4: "revocation-checker calls differ",
          5: "Derives argument log differs", 6: "error does not report the revocation as the model does",
+         7: "unavailable top-level proofs reported by validator.Claim differ",
          9: "model ran out of fuel"}
 
 
